@@ -22,6 +22,9 @@ def optGetT {α : Type} (o : Option α) : R α :=
   | some v => .ok v
   | none => raise .typeError
 
+/-- `s.encode('ascii').decode('ascii')` -/
+def asciiOnly (s : Str) : R Str := if s.all (fun c => decide (c < 128)) then .ok s else raise .unicodeError
+
 def zip3 {α β γ : Type} : List α → List β → List γ → List (α × β × γ)
   | a :: as, b :: bs, c :: cs => (a, b, c) :: zip3 as bs cs
   | _, _, _ => []
